@@ -95,6 +95,20 @@ def mutate(kind, obj, op):
         raise
 
 
+def nudged(st, seed, dt):
+    """the state again, a hair's breadth away (well inside numpy.isclose's default tolerance at these coordinates,
+    a million times the tolerance of the comparison): a vehicle creeping forward, a filter correcting the pose"""
+    rng = random.Random(seed)
+    new = copy.deepcopy(st)
+    new.time_step = st.time_step + dt
+    if isinstance(st.position, np.ndarray):
+        new.position = st.position + np.array([rng.choice([-1, 1]) * 4e-6 * max(1.0, abs(float(st.position[0]))),
+                                               rng.choice([-1, 1]) * 4e-6 * max(1.0, abs(float(st.position[1])))])
+    if isinstance(getattr(st, "orientation", None), float):
+        new.orientation = st.orientation + rng.choice([-1, 1]) * 4e-6 * max(1.0, abs(st.orientation))
+    return new
+
+
 def _mutate(kind, obj, op):
     name = op[0]
     if name == "tr":
@@ -131,7 +145,8 @@ def _mutate(kind, obj, op):
         else:
             p.trajectory = O.gen_traj(random.Random(op[1]), p.trajectory.initial_time_step)
     elif name == "set_init":
-        obj.initial_state = scen.rand_state(random.Random(op[1]), InitialState, obj.initial_state.time_step)
+        obj.initial_state = nudged(obj.initial_state, op[1], 0) if len(op) > 2 and op[2] == "nudge" else \
+            scen.rand_state(random.Random(op[1]), InitialState, obj.initial_state.time_step)
     elif name in ("set_pred", "update_pred"):
         rng = random.Random(op[1])
         t0 = obj.initial_state.time_step + 1
@@ -246,6 +261,8 @@ def update_initial_state(obj, op):
     inits = [obj.initial_state, obj.initial_signal_state, obj.initial_center_lanelet_ids,
              obj.initial_shape_lanelet_ids]
     cur = scen.rand_state(rng, InitialState, obj.initial_state.time_step + 1)
+    if len(op) > 3 and op[3] == "nudge":
+        cur = nudged(obj.initial_state, op[1], 1)
     sig = scen.rand_signal(rng, cur.time_step) if rng.random() < 0.5 else None
     cen = {rng.randint(1, 9)} if rng.random() < 0.5 else None
     shp = {rng.randint(1, 9)} if rng.random() < 0.5 else None
@@ -460,13 +477,14 @@ def g_mutator(rng, kind, obj):
                            ["set_traj", s, "inplace"]])
     if kind == "dyn":
         ms = [g_tr(rng), g_tr(rng), ["set_init", s], ["update_init", s, rng.randint(1, 4)],
+              ["set_init", s, "nudge"], ["update_init", s, rng.randint(1, 4), "nudge"],
               ["update_pred", s, rng.choice(["traj", "traj", "set"])],
               ["set_pred", s, rng.choice(["traj", "set", "none"])]]
         if _pred_of(obj) is not None:
             ms += [["set_shape", s], ["set_traj", s], ["set_shape", s, "inplace"], ["set_traj", s, "inplace"]]
         return rng.choice(ms)
     if kind == "static":
-        return rng.choice([g_tr(rng), g_tr(rng), ["set_init", s]])
+        return rng.choice([g_tr(rng), g_tr(rng), ["set_init", s], ["set_init", s, "nudge"]])
     if kind == "lanelet":
         if obj.center_vertices.shape[1] == 3:
             return ["conv2d"]
